@@ -61,8 +61,37 @@ def livetiming : List String → Option String
     some s!"{t.availabilityStartTime} {t.utcOffsetMin} {t.elapsedTime} {t.timeShiftBufferDepth} {t.firstAvailableTime} {t.publishTime} {m} {t.leeway}"
   | _ => none
 
+def showTiming (t : LiveTiming) : String :=
+  let m := match t.minimumUpdatePeriod with
+    | none => "-"
+    | some p => toString p
+  s!"{t.availabilityStartTime} {t.utcOffsetMin} {t.elapsedTime} {t.timeShiftBufferDepth} {t.firstAvailableTime} {t.publishTime} {m} {t.leeway}"
+
+def showOpt : Option Int → String
+  | none => "-"
+  | some v => toString v
+
+/-- `handon <now1> <now2> <start> <depth|-> <mup|-> <leeway|-> <sd> <ts>` →
+`<handed-on start µs> <offset min> <depth> <mup|-> | <timing of the followed document at now2>` -/
+def handon : List String → Option String
+  | [now1, now2, start, depth, mup, leeway, sd, ts] => do
+    let now1 ← parseInt now1
+    let now2 ← parseInt now2
+    let start ← parseStart start
+    let depth ← parseOptInt depth
+    let mup ← parseOptInt mup
+    let leeway ← parseOptInt leeway
+    let sd ← parseNat sd
+    let ts ← parseNat ts
+    if ts = 0 ∨ now1 < 0 ∨ now2 < now1 then none else
+    let o : Options := { start := start, depth := depth, mup := mup, leeway := leeway }
+    let t1 := calculateLiveParams now1 ⟨sd, ts⟩ o
+    let o2 := handOn t1 o
+    some s!"{t1.availabilityStartTime} {t1.utcOffsetMin} {showOpt o2.depth} {showOpt o2.mup} | {showTiming (followed now1 now2 ⟨sd, ts⟩ o)}"
+  | _ => none
+
 /-- channels exported to `Main.lean` (collected by harness/gen_main.py) -/
 def channels : List (String × (List String → Option String)) :=
-  [("calendar", calendar), ("mupdefault", mupdefault), ("livetiming", livetiming)]
+  [("calendar", calendar), ("mupdefault", mupdefault), ("livetiming", livetiming), ("handon", handon)]
 
 end DashLive.Driver.LiveTiming
